@@ -14,6 +14,8 @@ structure Verdict where
   prop : List String := []
   /-- oracle evaluations skipped because the input is outside the property's domain -/
   skipped : Nat := 0
+  /-- measurements reported for the evidence (not verdicts) -/
+  info : List String := []
 
 /-- an evaluation that may first need critical values from the external quantile routine -/
 structure OpEval where
@@ -142,9 +144,12 @@ def geoOp {F : Type} [FloatLike F] [Widen F Float] (args : List String) : Option
     | .ok g => g.logs.ciPrep
     | .err e => .err e
     | .panic t => .panic t
-  let needs := match prep with
+  let auxPrep : Outcome (Err Float) (Arith.Prep Float) := (Arith.fromList logs).ciPrep
+  let needs := (match prep with
     | .ok p => [critReq conf p.dof]
-    | _ => []
+    | _ => []) ++ (match auxPrep with
+    | .ok p => [critReq conf p.dof]
+    | _ => [])
   pure {
     needs := needs
     run := fun crit impl =>
@@ -169,7 +174,10 @@ def geoOp {F : Type} [FloatLike F] [Widen F Float] (args : List String) : Option
         | .err e => tokErr e
         | .panic t => [.s "panic", .s t]
       let a : Outcome (Err Float) (Interval F) := Arith.ci crit conf logs
-      let aT := tokOutcome (tokInterval tolA) a
+      let tolAux := match auxPrep with
+        | .ok p => boundTol (F := F) p.mean (crit (critReq conf p.dof)) p.sem
+        | _ => 0.0
+      let aT := tokOutcome (tokInterval (fmax tolA tolAux)) a
       let am := relTok (Arith.fromList xs).mean
       -- oracle (on the implementation's own outputs): geometric CI = exp(arithmetic CI of the logs)
       let cs := match impl with
@@ -189,9 +197,12 @@ def harmOp {F : Type} [FloatLike F] [Widen F Float] (args : List String) : Optio
     | .ok h => h.recip.ciPrep
     | .err e => .err e
     | .panic t => .panic t
-  let needs := match prep with
+  let auxPrep : Outcome (Err Float) (Arith.Prep Float) := (Arith.fromList recips).ciPrep
+  let needs := (match prep with
     | .ok p => [critReq conf.flipped p.dof]
-    | _ => []
+    | _ => []) ++ (match auxPrep with
+    | .ok p => [critReq conf.flipped p.dof]
+    | _ => [])
   pure {
     needs := needs
     run := fun crit impl =>
@@ -217,7 +228,10 @@ def harmOp {F : Type} [FloatLike F] [Widen F Float] (args : List String) : Optio
         | .err e => tokErr e
         | .panic t => [.s "panic", .s t]
       let a : Outcome (Err Float) (Interval F) := Arith.ci crit conf.flipped recips
-      let aT := tokOutcome (tokInterval tolA) a
+      let tolAux := match auxPrep with
+        | .ok p => boundTol (F := F) p.mean (crit (critReq conf.flipped p.dof)) p.sem
+        | _ => 0.0
+      let aT := tokOutcome (tokInterval (fmax tolA tolAux)) a
       let am := relTok (Arith.fromList xs).mean
       -- oracle: harmonic CI = reciprocal of the arithmetic CI of the reciprocals, ends exchanged,
       -- whenever the reciprocal-space bound used is strictly positive
